@@ -254,15 +254,16 @@ Definition is_optional (A : list annot) : bool := existsb (fun a => an_name a =?
 
 Definition one_attr (a : rarg) : rattr := RDds [a].
 
-(* the attributes are written once, before the first declarator; every declarator becomes a
-   `pub` field; the Option<..> wrapper is applied to every declarator *)
+(* the attributes are collected once and written before EVERY declarator (fix 7270bfe: IDL member
+   annotations apply to every declarator of the member); every declarator becomes a `pub` field;
+   the Option<..> wrapper is applied to every declarator *)
 Definition gen_member (mods : list string) (m : member) : option (list rfield) :=
   match gen_ty mods (m_type m) with
   | None => None
   | Some t =>
       let ty := fun d => if is_optional (m_annots m) then ROpt (wrap_arr d t) else wrap_arr d t in
-      Some (mkField (map one_attr (rec_args (m_annots m))) true (decl_name (m_d0 m)) (ty (m_d0 m))
-            :: map (fun d => mkField [] true (decl_name d) (ty d)) (m_ds m))
+      Some (map (fun d => mkField (map one_attr (rec_args (m_annots m))) true (decl_name d) (ty d))
+                (m_d0 m :: m_ds m))
   end.
 
 Fixpoint concat_opt {A} (l : list (option (list A))) : option (list A) :=
@@ -697,10 +698,8 @@ Fixpoint tspec_bounded (t : tspec) : bool :=
 (* class 3 — an array declarator with more than one dimension *)
 Definition multi_dim (d : declr) : bool :=
   match d with DArray _ _ (_ :: _) => true | _ => false end.
-(* class 2 — @key/@id/@optional on a member that declares more than one name *)
-Definition member_multi_annot (m : member) : bool :=
-  negb (match rec_args (m_annots m) with [] => true | _ => false end)
-  && negb (match m_ds m with [] => true | _ => false end).
+(* (class 2 — annotations of a multi-declarator member reaching the first name only — was fixed in
+   /repo by 7270bfe and is retired; the class numbers of the others are kept) *)
 (* class 4 — the generator writes two or more separate #[dust_dds(..)] attributes on one item *)
 Definition member_split (m : member) : bool := Nat.ltb 1 (length (rec_args (m_annots m))).
 Definition in_module (mods : list string) : nat := match mods with [] => 0%nat | _ => 1%nat end.
@@ -716,12 +715,6 @@ Fixpoint def_bounded (d : def) : bool :=
   | DUnion _ _ c0 cs => existsb (fun c => tspec_bounded (uc_type c)) (c0 :: cs)
   | DTypedef t _ _ => tspec_bounded t
   | DConst t _ _ => tspec_bounded t
-  | _ => false
-  end.
-Fixpoint def_multi_annot (d : def) : bool :=
-  match d with
-  | DModule _ body => existsb def_multi_annot body
-  | DStruct _ _ _ ms => existsb member_multi_annot ms
   | _ => false
   end.
 Fixpoint def_multi_dim (d : def) : bool :=
@@ -740,7 +733,6 @@ Fixpoint def_split (mods : list string) (d : def) : bool :=
   end.
 
 Definition known_bounds (defs : list def) : bool := existsb def_bounded defs.
-Definition known_multi_annot (defs : list def) : bool := existsb def_multi_annot defs.
 Definition known_multi_dim (defs : list def) : bool := existsb def_multi_dim defs.
 Definition known_split (defs : list def) : bool := existsb (def_split []) defs.
 
@@ -930,7 +922,7 @@ Definition ps_agrees (p : pred_struct) (o : obs_struct) : bool :=
   && list_agree pm_agrees (ps_members p) (os_members o).
 
 (* ---- the property on the observed descriptions: what the IDL declares about its structs.
-   [ra]: do not look at what lives in attributes (classes 2 and 4);
+   [ra]: do not look at what lives in attributes (class 4);
    [ri]: do not look at explicit ids of non-mutable structs (class 5) *)
 Definition declared_member_agrees (ra ri : bool) (mutable : bool) (m : mshape) (o : obs_member) : bool :=
   (ms_name m =? om_name o)
